@@ -44,7 +44,7 @@ pub struct Case {
 }
 
 fn key_shape() -> impl Strategy<Value = KeyShape> {
-    prop_oneof![8 => Just(KeyShape::Good), 1 => Just(KeyShape::NonHex), 1 => Just(KeyShape::OddLength), 1 => Just(KeyShape::GuidPathNew), 1 => Just(KeyShape::GuidPathExisting)]
+    prop_oneof![8 => Just(KeyShape::Good), 1 => Just(KeyShape::NonHex), 1 => Just(KeyShape::OddLength), 1 => Just(KeyShape::GuidPathNew), 1 => Just(KeyShape::GuidPathExisting), 1 => Just(KeyShape::Hex512), 1 => Just(KeyShape::Hex128)]
 }
 
 fn client() -> impl Strategy<Value = Client> {
@@ -83,7 +83,7 @@ pub fn strategy() -> impl Strategy<Value = Case> {
     (enabled_doc(), prop::collection::vec(st(), 2..12), prop::bool::weighted(0.15)).prop_map(|(first, steps, key_dir_is_link)| Case { first, steps, key_dir_is_link })
 }
 
-pub const RULE: &str = "generator: run histories of the real KeyKeeper + ProxyServer with file logging configured exactly as service::start_service does (Trace level), the event logger flushing every 10 ms and the status task writing status.json every 20 ms: status documents (C09), key rotations, failing acquire/attest calls with error bodies, key responses that are well-formed but carry a non-hex or odd-length key or a key id that is a relative path (into a folder that does not exist / that exists next to the key directory), the key directory removed while the agent runs (environment fault, followed by a rotation), in 15% of the histories the configured key directory is a symbolic link to a directory with ordinary permissions, status failures, restarts of the agent on the same directories, interleaved with client traffic through the proxy (relayed signed requests, denied requests, direct connections, /provision queries with/without notify, with past/current/future ticks). taint set: every key value delivered in a parseable key response, as given, lower/upper-cased, as raw bytes and as base64 of both. sinks searched after every history: every file under the log directory (incl. connection log and rule dumps), the event directory, the status directory, non-key files of the key directory (status.tag, provisioned.tag), every file next to the key directory, the /dev/console stand-in, the process's stdout/stderr, and every byte returned to the local client. Also after every history: the key directory has mode 0700 and owner root. non-trivial: history with >= 1 successful latch and >= 1 host fault or denied//provision request after it; distinct by hash of the history.";
+pub const RULE: &str = "generator: run histories of the real KeyKeeper + ProxyServer with file logging configured exactly as service::start_service does (Trace level), the event logger flushing every 10 ms and the status task writing status.json every 20 ms: status documents (C09), key rotations, failing acquire/attest calls with error bodies, key responses that are well-formed but carry a non-hex or odd-length key, a valid hex key of another size (512 / 128 bit) or a key id that is a relative path (into a folder that does not exist / that exists next to the key directory), the key directory removed while the agent runs (environment fault, followed by a rotation), in 15% of the histories the configured key directory is a symbolic link to a directory with ordinary permissions, status failures, restarts of the agent on the same directories, interleaved with client traffic through the proxy (relayed signed requests, denied requests, direct connections, /provision queries with/without notify, with past/current/future ticks). taint set: every key value delivered in a parseable key response, as given, lower/upper-cased, as raw bytes and as base64 of both. sinks searched after every history: every file under the log directory (incl. connection log and rule dumps), the event directory, the status directory, non-key files of the key directory (status.tag, provisioned.tag), every file next to the key directory, the /dev/console stand-in, the process's stdout/stderr, and every byte returned to the local client. Also after every history: the key directory has mode 0700 and owner root. non-trivial: history with >= 1 successful latch and >= 1 host fault or denied//provision request after it; distinct by hash of the history.";
 
 pub struct Env {
     pub stdio_log: Option<PathBuf>,
@@ -149,9 +149,16 @@ fn context_of(hay: &[u8], at: usize, len: usize) -> String {
     String::from_utf8_lossy(&line).chars().take(400).collect()
 }
 
-fn classify(line: &str) -> &'static str {
+fn classify(line: &str, key: &str) -> &'static str {
     if line.contains("Hex encoded key") || line.contains("Hex(\"") {
-        "Error::Hex-echo"
+        // the recorded known finding is the echo of a key that really is not hex (non-hex characters or odd length);
+        // the same error text around a key that IS valid hex is another defect
+        let valid_hex = key.len() % 2 == 0 && !key.is_empty() && key.chars().all(|c| c.is_ascii_hexdigit());
+        if valid_hex {
+            "Error::Hex-echo-of-a-valid-hex-key"
+        } else {
+            "Error::Hex-echo"
+        }
     } else {
         "other"
     }
@@ -179,7 +186,7 @@ fn scan(sink: &str, name: &str, data: &[u8], keys: &[String], out: &mut std::col
             while let Some(rel) = find(&data[from..], &needle) {
                 let at = from + rel;
                 let line = context_of(data, at, needle.len());
-                out.entry(format!("leak:{}:{}", sink, classify(&line))).or_insert_with(|| format!("{} form of a delivered key found in {} ({}): {}", form, sink, name, line));
+                out.entry(format!("leak:{}:{}", sink, classify(&line, k))).or_insert_with(|| format!("{} form of a delivered key found in {} ({}): {}", form, sink, name, line));
                 from = at + needle.len();
                 hits += 1;
                 if hits > 200 {
